@@ -211,7 +211,8 @@ def run(ctx):
         # every character of the input is mapped: the characters iterated are those of the parameter itself, not of a
         # trimmed / filtered / truncated copy (a name made of whitespace only would come out empty)
         its_ = [c for g_ in f.region() for c in g_.body.calls() if callee_method_name(c) in ("chars", "char_indices") and "str" in (c.resolved or "")]
-        cut_ = [sym_str(arg_syms(c)[0])[:60] for c in its_ if sym_arg(sym_through(arg_syms(c)[0], "Deref::deref", "String::as_str", "AsRef::as_ref", "Borrow::borrow")) is None]
+        # (iterations over something that is not derived from the parameter at all — the result, in an assertion — are not the mapping's input)
+        cut_ = [sym_str(arg_syms(c)[0])[:60] for c in its_ if sym_arg(sym_through(arg_syms(c)[0], "Deref::deref", "String::as_str", "AsRef::as_ref", "Borrow::borrow")) is None and any(isinstance(x, tuple) and x and x[0] == "arg" for x in sym_walk(arg_syms(c)[0])) and not any(isinstance(x, tuple) and x and x[0] == "call" and isinstance(x[1], str) and strip_generics(x[1]).split("::")[-1] in ("with_capacity", "new") for x in sym_walk(arg_syms(c)[0]))]
         if its_:
             chk.ob("C08.b", f"{f.path} [every input character]", not cut_, "the characters mapped are those of the parameter" if not cut_ else f"the sanitiser iterates {cut_[0]} instead of its whole input: characters are dropped before the mapping (an all-whitespace name becomes the empty string)", f.loc(), nontrivial=False)
         clos = [c for c in f.region() if c is not f]
